@@ -174,6 +174,7 @@ def reload_(ctx):
                           fail_msg="the reload of %s filters the actor's rows (WHERE %s; %s): durable bookkeeping is silently dropped at restart and the version is then advertised as held / never re-requested" % (tbl, " ".join(w.split()), bad))
             except sqlmini.ParseError as ex_:
                 R.fail("selects-all-rows:" + tbl, s.call.where(), "cannot parse the reload WHERE clause (%s): %s" % (ex_, s.sql[:120]))
+        raw_rows(F, R, b, sites)
         nxt = [c for c in b.calls if c.name() == "next" and "rusqlite::row::Rows" in (c.self_ty or c.f)]
         if not nxt:
             nxt = [c for c in b.calls if c.f.startswith("rusqlite::row::Rows") and c.name() == "next"]
@@ -199,6 +200,27 @@ def reload_(ctx):
                     drop = b.can_reach(some_t, c.bb, no_nodes=tuple(x.bb for x in sk))
                     R.require(not drop, "loop#%d.row-recorded" % i, sk[0].where(), "every reloaded row reaches %s" % sk[0].name(),
                               fail_msg="a reloaded row can be skipped without being recorded (path from Some(row) back to rows.next() avoiding %s)" % sk[0].name())
+
+
+def raw_rows(F, R, b, sites, only=None):
+    """each reload SELECT returns the stored rows as they are: plain columns, no aggregate / GROUP BY / DISTINCT / LIMIT.
+    (`SELECT db_version, MIN(start_seq), MAX(end_seq) .. GROUP BY db_version` would reload two disjoint received ranges as one
+    covering range: the hole between them counts as received and the version is applied - and advertised - incomplete.)"""
+    for s in sorted(sites, key=lambda x: x.call.line):
+        tbls = sorted(s.reads & {"__corro_bookkeeping_gaps", "__corro_seq_bookkeeping", "crsql_db_versions"})
+        if not tbls or (only and tbls[0] not in only):
+            continue
+        tbl = tbls[0]
+        try:
+            cols = sqlmini.select_columns(s.sql)
+        except sqlmini.ParseError as e:
+            R.fail("raw-rows:" + tbl, s.call.where(), "cannot read the column list of the reload SELECT (%s)" % e)
+            continue
+        fancy = [c for c in cols if not re.match(r"^[A-Za-z_][A-Za-z0-9_]*$", c)]
+        clause = re.search(r"\b(GROUP\s+BY|DISTINCT|LIMIT|HAVING|UNION|EXCEPT|INTERSECT)\b", s.sql, re.I)
+        R.require(not fancy and not clause, "raw-rows:" + tbl, s.call.where(), "the reload reads the stored rows unaggregated (%s)" % ", ".join(cols),
+                  fail_msg="the reload of %s does not read the stored rows one by one (%s%s): ranges that were stored separately are merged or dropped when bookkeeping is rebuilt"
+                           % (tbl, "computed columns " + ", ".join(fancy) if fancy else "", (" clause " + clause.group(1)) if clause else ""))
 
 
 def _option_switches(b):
